@@ -22,7 +22,8 @@ Definition pair_eqb (a b : nat * nat) : bool := Nat.eqb (fst a) (fst b) && Nat.e
 Definition checkF (c : case_t) : bool :=
   let acc := acc_of (c_acc c) in
   let run := impl_run acc (c_reg0 c) (c_hist c) in
-  list_eqb pair_eqb (fst run) (c_regN c)
+  nodup_names (c_reg0 c)                          (* registerreader never registers a name twice *)
+  && list_eqb pair_eqb (fst run) (c_regN c)
   && list_eqb res3_eqb (snd run) (map (fun o => (fst (fst o), snd o)) (c_obs c))
   (* the fresh interpreter is the model started from the initial registry *)
   && list_eqb result_eqb (spec_results acc (c_reg0 c) (c_hist c)) (map fst (c_fresh c)).
